@@ -40,7 +40,7 @@ def generate(seed, tier, index):
     steps = (400, 2500) if kind == "gillespie" else (300, 1500)
     e0 = C.make_script_entry(rs, ru, rk, kind, SPEC_P,
                              {"steps": steps, "policy": "on_iteration", "isp": rk.choice(["none", "none", "auto"]),
-                              "p_seed": 1.0, "p_explicit_tmax": 1.0, "nreq": (1, 2), "courant": (0.02, 0.2)},
+                              "p_seed": 1.0, "p_explicit_tmax": 1.0, "nreq": (1, 2), "courant": (0.02, 0.2), "p_zero_tmax": 0.0},
                              rich=rs.chance(0.3))
     nruns = rf.randint(3, 6) if kind == "gillespie" else rf.randint(2, 5)
     scripts = []
